@@ -28,6 +28,6 @@ for qn, rep in reports.items():
         print('   %s x%d %s | %s' % (r, len(obs), oid, ob.clause[:200]))
         print('        site=%s note=%s' % (site[:200], ob.note))
         shown = 2 if '--all' not in sys.argv else len(obs)
-        for o in obs[:shown]:
-            print('        path:', ' / '.join(o.path[-14:]))
+        for o in obs[:(1 if "--all" not in sys.argv else len(obs))]:
+            print("        path:", " / ".join(o.path[-8:])[:300])
         if ob.witness and '--wit' in sys.argv: print('        witness', json.dumps(ob.witness)[:1500])
